@@ -414,7 +414,7 @@ package connect
 //@   ensures readMaxBytes > 0 && readMaxBytes < 9223372036854775807 ==> |view(dst)| - |old(view(dst))| <= readMaxBytes + 1          // label: buffers-at-most-limit-plus-one   // tags: C09
 //@   ensures decompOK(c.decompressors, view(src)) && (readMaxBytes <= 0 || |decompBy(c.decompressors, view(src))| <= readMaxBytes) ==> res == nil   // label: valid-input-within-limit-accepted
 //@   ensures |view(src)| > 0 && res != nil ==> !Is(res, io.EOF)                                    // label: failure-is-never-a-clean-eof   // tags: C04
-//@   ensures res != nil ==> asErr(res) == res && res.code != 0
+//@   ensures res != nil ==> asErr(res) == res && res.code != 0 && (res.code == 3 || res.code == 2)   // label: its-own-errors-are-invalid-argument-or-unknown
 
 // frame(f, d): the 5-byte prefix (flags, big-endian length) followed by the payload.
 // appendsFrame(new, old, f, d): new is old followed by exactly one envelope: the
@@ -807,8 +807,21 @@ package connect
 //@   tags C16
 //@   ensures res != nil && decl(res) == []
 //@ func newCompressionPool(newDecompressor, newCompressor) res
-//@   tags C16, C08
-//@   ensures fresh(res)
+//@   tags C16, C08, C07, C06
+//@   ensures newDecompressor != nil && newCompressor != nil ==> fresh(res)                         // label: a-pool-for-a-pair-of-constructors
+//@   ensures newDecompressor == nil || newCompressor == nil ==> res == nil                        // label: no-pool-without-constructors-(the-option-is-then-a-no-op)
+// The pool's New functions call the constructors: they must be there (obligation
+// of newCompressionPool, which creates these closures).
+//@ trusted func newCompressionPool$1.newDecompressor() res
+//@ trusted func newCompressionPool$2.newCompressor() res
+//@ func newCompressionPool$1() res
+//@   tags C08, C07, C06
+//@   requires deref(newDecompressor) != nil
+//@   assigns everything
+//@ func newCompressionPool$2() res
+//@   tags C08, C07, C06
+//@   requires deref(newCompressor) != nil
+//@   assigns everything
 //@ func withGzip() res
 //@   tags C16
 //@   ensures res != nil && decl(res) == []
@@ -896,6 +909,7 @@ package connect
 
 //@ func WithRecover(handle) res
 //@   tags C19, C16
+//@   requires handle != nil
 //@   ensures res != nil && |decl(res)| == 1 && typeis(decl(res)[0], "*recoverHandlerInterceptor") && cast(decl(res)[0], "*recoverHandlerInterceptor").handle == handle   // label: installs-exactly-one-recover-interceptor
 //@   assert@call(WithInterceptors#1): unfoldFall(seq(arg0), 0) && unfoldFall(seq(arg0), 1) && |arg0| == 1   // label: one-interceptor-passed
 
@@ -1087,7 +1101,8 @@ package connect
 
 //@ trusted func json.Unmarshal(data, v) err
 //@   assigns callerfresh
-//@   doc: "Unmarshal parses the JSON-encoded data and stores the result in the value pointed to by v: it writes to v (a value the caller allocated) and to objects it allocates itself, nothing else."
+//@   ensures err != nil ==> !Is(err, io.EOF) && !coded(err)   // label: truncation-is-a-syntax-error-not-eof
+//@   doc: "Unmarshal parses the JSON-encoded data and stores the result in the value pointed to by v (it writes to v and to objects it allocates, nothing else). Assumed of its errors: encoding/json validates the whole input first and reports truncation as a *json.SyntaxError (unexpected end of JSON input), never as io.EOF; the custom UnmarshalJSON methods reachable from here (connectWireError) return fmt / protojson / base64 errors."
 
 //@ func (*connectStreamingUnmarshaler).Unmarshal(u, message) res
 //@   tags C04, C05, C06, C11
@@ -1096,6 +1111,7 @@ package connect
 //@   ensures res == nil ==> old(completeFrame(u.envelopeReader, rest(u.envelopeReader.reader)) && (rest(u.envelopeReader.reader)[0] == 0 || rest(u.envelopeReader.reader)[0] == 1))   // label: a-message-only-from-a-complete-data-frame
 //@   ensures called("json.Unmarshal", 1) ==> old(completeFrame(u.envelopeReader, rest(u.envelopeReader.reader)) && bit(rest(u.envelopeReader.reader)[0], 2))   // label: end-of-stream-is-parsed-only-from-a-frame-flagged-0x02
 //@   ensures res != nil && Is(res, io.EOF) && termerr(u.envelopeReader.reader) == io.EOF && !called("json.Unmarshal", 1) ==> |old(rest(u.envelopeReader.reader))| == 0   // label: otherwise-eof-only-at-a-clean-end
+//@   ensures res != nil && Is(res, io.EOF) && !Is(res, errSpecialEnvelope) && termerr(u.envelopeReader.reader) == io.EOF ==> |old(rest(u.envelopeReader.reader))| == 0   // label: apart-from-the-sentinel-eof-only-at-a-clean-end
 //@   ensures res != nil ==> asErr(res) == res                                                           // label: errors-are-coded
 //@   ensures res != errSpecialEnvelope ==> u.endStreamErr == old(u.endStreamErr)                        // label: end-stream-error-set-only-with-the-sentinel
 //@   ensures res == errSpecialEnvelope && u.endStreamErr != nil ==> u.endStreamErr.code != 0           // label: end-stream-error-has-a-non-zero-code   // tags: C06
@@ -1122,12 +1138,20 @@ package connect
 // C06: every *Error built while decoding a response has a non-zero code
 // ---------------------------------------------------------------------------
 
+// The HTTP-status-to-code tables as the two protocol documents of this
+// version give them ("the code is derived from the HTTP status", C06).
+//@ spec connectHTTPCode(s int) int = if s == 400 then 3 else if s == 401 then 16 else if s == 403 then 7 else if s == 404 then 12 else if s == 408 then 4 else if s == 412 then 9 else if s == 413 then 8 else if s == 429 then 14 else if s == 431 then 8 else if s == 502 || s == 503 || s == 504 then 14 else 2
+//@ spec grpcHTTPCode(s int) int = if s == 400 then 13 else if s == 401 then 16 else if s == 403 then 7 else if s == 404 then 12 else if s == 429 || s == 502 || s == 503 || s == 504 then 14 else 2
 //@ func connectHTTPToCode(httpCode) res
 //@   tags C06, C05
+//@   assigns nothing
 //@   ensures res != 0 && 1 <= res && res <= 16                                                          // label: never-the-zero-code
+//@   ensures res == connectHTTPCode(httpCode)                                                           // label: the-protocol's-table
 //@ func grpcHTTPToCode(httpCode) res
 //@   tags C06, C05
+//@   assigns nothing
 //@   ensures res != 0 && 1 <= res && res <= 16                                                          // label: never-the-zero-code
+//@   ensures res == grpcHTTPCode(httpCode)                                                              // label: the-protocol's-table
 
 // Connect end-of-stream messages: a peer-supplied error object never yields
 // code 0, and the metadata keys are canonical (lookups are case-insensitive).
@@ -1232,12 +1256,19 @@ package connect
 //@   assigns view(w)
 //@   ensures |view(w)| < 4294967296
 //@   doc: "Write writes a header in wire format. (The wire format itself is not modelled; assumed: a header block is shorter than 4 GiB - net/http caps header bytes at 1 MiB by default.)"
+// gRPC-Web (PROTOCOL-WEB.md): the trailers frame is an HTTP/1 header block whose
+// field names are lower-case.
+// lowerOf / strings.ToLower: /verif/specs/10_strconv_strings.spec
 //@ func (*grpcMarshaler).MarshalWebTrailers(m, trailer) res
 //@   tags C05, C02
-//@   requires m != nil && envOK(m.envelopeWriter)
+//@   requires m != nil && envOK(m.envelopeWriter) && trailer != nil
 //@   nosafety ownership
-//@   assigns out(m.envelopeWriter.writer)
+//@   assigns out(m.envelopeWriter.writer), mapof(trailer), mapvals(trailer)
 //@   ensures res != nil ==> coded(res)
+//@   assert@call((http.Header).Write#1): arg0 == trailer && (forall k seq :: {mapdom(trailer, k)} mapdom(trailer, k) ==> lowerOf(k) == k)   // label: web-trailer-field-names-are-lower-case
+//@   loop 1:
+//@     invariant forall k seq :: {mapdom(trailer, k)} mapdom(trailer, k) && lowerOf(k) != k ==> before(mapdom(trailer, k)) && !iterated(k)
+//@     assigns mapof(trailer), mapvals(trailer)
 //@ constfield grpcHandlerConn.request, grpcHandlerConn.responseWriter, grpcHandlerConn.responseHeader, grpcHandlerConn.responseTrailer, grpcHandlerConn.bufferPool, grpcHandlerConn.protobuf, grpcHandlerConn.web
 //@ macro tkey(k seq) seq = canon("Trailer:" ++ k)
 //@ func (*grpcHandlerConn).Close(hc, err) retErr
@@ -1292,6 +1323,7 @@ package connect
 //@   ensures !old(u.alreadyRead) && old(termerr(u.reader)) == io.EOF && (u.readMaxBytes == 0 || |old(rest(u.reader))| <= u.readMaxBytes) ==> called("(*connectUnaryUnmarshaler).UnmarshalFunc.unmarshal", 1) || called("(*compressionPool).Decompress", 1)   // label: body-within-the-limit-reaches-the-decoder   // tags: C09
 //@   ensures !old(u.alreadyRead) && res == nil && u.readMaxBytes > 0 ==> |old(rest(u.reader))| <= u.readMaxBytes && old(termerr(u.reader)) == io.EOF   // label: accepted-body-is-within-the-limit-and-complete   // tags: C09, C04
 //@   ensures !old(u.alreadyRead) && coded(termerr(u.reader)) && !Is(termerr(u.reader), io.EOF) ==> res == asErr(termerr(u.reader))   // label: coded-transport-error-passes-through-also-while-draining-an-oversized-body   // tags: C15
+//@   ensures res != nil && (res.code == 1 || res.code == 4) ==> coded(termerr(u.reader)) || Is(termerr(u.reader), context.Canceled) || Is(termerr(u.reader), context.DeadlineExceeded)   // label: canceled-and-deadline-exceeded-only-come-from-the-transport   // tags: C06, C15
 //@   ensures !old(u.alreadyRead) && !coded(termerr(u.reader)) && Is(termerr(u.reader), context.Canceled) && (u.readMaxBytes == 0 || |old(rest(u.reader))| <= u.readMaxBytes) ==> res != nil && codeOf(res) == 1   // label: a-read-cut-short-by-cancellation-is-canceled   // tags: C15
 //@   ensures !old(u.alreadyRead) && !coded(termerr(u.reader)) && !Is(termerr(u.reader), context.Canceled) && Is(termerr(u.reader), context.DeadlineExceeded) && (u.readMaxBytes == 0 || |old(rest(u.reader))| <= u.readMaxBytes) ==> res != nil && codeOf(res) == 4   // label: a-read-cut-short-by-expiry-is-deadline-exceeded   // tags: C15
 
@@ -1307,7 +1339,7 @@ package connect
 //@   ensures old(response.StatusCode) != 200 ==> res != nil                                             // label: non-200-is-an-error
 //@   ensures old(response.StatusCode) != 200 && called("(*connectUnaryUnmarshaler).UnmarshalFunc", 1) && !coded(termerr(response.Body)) && Is(termerr(response.Body), context.Canceled) ==> codeOf(res) == 1   // label: cancellation-while-reading-the-error-body-is-canceled   // tags: C15
 //@   ensures old(response.StatusCode) != 200 && called("(*connectUnaryUnmarshaler).UnmarshalFunc", 1) && !coded(termerr(response.Body)) && !Is(termerr(response.Body), context.Canceled) && Is(termerr(response.Body), context.DeadlineExceeded) ==> codeOf(res) == 4   // label: expiry-while-reading-the-error-body-is-deadline-exceeded   // tags: C15
-//@   ensures old(response.StatusCode) != 200 && called("NewError", 1) ==> res.code == callres("connectHTTPToCode", 2)   // label: without-a-valid-wire-error-the-code-comes-from-the-http-status
+//@   ensures old(response.StatusCode) != 200 && !(called("(*connectUnaryUnmarshaler).UnmarshalFunc", 1) && callres("(*connectUnaryUnmarshaler).UnmarshalFunc", 1) == nil) && !coded(termerr(response.Body)) && !Is(termerr(response.Body), context.Canceled) && !Is(termerr(response.Body), context.DeadlineExceeded) ==> res.code == connectHTTPCode(old(response.StatusCode))   // label: without-a-valid-wire-error-the-code-comes-from-the-http-status
 //@   assert@call(readOnlyCompressionPools.Get#1): arg1 == hget(response.Header, "Content-Encoding")   // label: decoder-chosen-from-the-content-encoding-header   // tags: C05, C08
 //@   assert@call((*connectUnaryUnmarshaler).UnmarshalFunc#1): arg0.reader == response.Body && arg0.bufferPool == cc.bufferPool && arg0.compressionPool == callres("readOnlyCompressionPools.Get", 1) && arg0.readMaxBytes == 0 && !arg0.alreadyRead   // label: error-body-is-read-with-the-response's-encoding   // tags: C05, C06, C08
 //@   assert@call((http.Header).Get#1): forall k seq :: {mapval(response.Header, k)} mapdom(response.Header, k) ==> (if isTrailerKey(k) then mapdom(cc.responseTrailer, k[8:]) && mapval(cc.responseTrailer, k[8:]) == mapval(response.Header, k) else mapdom(cc.responseHeader, k) && mapval(cc.responseHeader, k) == mapval(response.Header, k))   // label: headers-and-prefixed-trailers-are-split-with-values-intact   // tags: C11
@@ -1448,6 +1480,7 @@ package connect
 //@   ensures res == nil ==> old(completeFrame(u.envelopeReader, rest(u.envelopeReader.reader)) && (rest(u.envelopeReader.reader)[0] == 0 || rest(u.envelopeReader.reader)[0] == 1))   // label: a-message-only-from-a-complete-data-frame
 //@   ensures res == errSpecialEnvelope ==> old(u.web && completeFrame(u.envelopeReader, rest(u.envelopeReader.reader)) && bit(rest(u.envelopeReader.reader)[0], 128))   // label: web-trailers-only-from-a-frame-flagged-0x80
 //@   ensures res != nil && Is(res, io.EOF) && res != errSpecialEnvelope && termerr(u.envelopeReader.reader) == io.EOF && !called("(*textproto.Reader).ReadMIMEHeader", 1) ==> |old(rest(u.envelopeReader.reader))| == 0   // label: otherwise-eof-only-at-a-clean-end
+//@   ensures res != nil && Is(res, io.EOF) && !Is(res, errSpecialEnvelope) && termerr(u.envelopeReader.reader) == io.EOF ==> |old(rest(u.envelopeReader.reader))| == 0   // label: apart-from-the-sentinel-eof-only-at-a-clean-end
 //@   ensures res != nil ==> asErr(res) == res                                                           // label: errors-are-coded
 
 //@ constfield grpcClientConn.duplexCall, grpcClientConn.responseHeader, grpcClientConn.responseTrailer, grpcClientConn.bufferPool, grpcClientConn.protobuf, grpcClientConn.readTrailers, grpcClientConn.compressionPools
@@ -1768,6 +1801,7 @@ package connect
 
 //@ func NewUnaryHandler(procedure, unary, options) res
 //@   tags C12, C16
+//@   use wrapAll_nonnil
 //@   assigns everything
 //@   ensures res != nil && fresh(res) && res.spec.StreamType == 0 && res.spec.Procedure == callres("(*handlerConfig).newSpec", 1).Procedure && !res.spec.IsClient   // label: handler-labelled-with-procedure-and-unary-stream-type
 //@   ensures res.implementation == implementation   // label: the-unary-adapter-is-not-wrapped-by-streaming-interceptors   // tags: C16
@@ -2570,16 +2604,22 @@ package connect
 //@   ensures res == callres("(*connectUnaryUnmarshaler).UnmarshalFunc", 1)
 //@   assert@call((*connectUnaryUnmarshaler).UnmarshalFunc#1): arg1 == message   // label: the-caller's-message-is-the-target
 //@ func (*connectStreamingHandlerConn).Receive(hc, msg) err
-//@   tags C01, C07
+//@   tags C01, C07, C04
 //@   requires hc != nil && hc.unmarshaler.envelopeReader.reader != nil && !pooled(hc.unmarshaler.envelopeReader.reader) && termerr(hc.unmarshaler.envelopeReader.reader) != errSpecialEnvelope && hc.unmarshaler.envelopeReader.bufferPool != nil && hc.unmarshaler.envelopeReader.codec != nil
 //@   assigns everything
-//@   ensures (err == nil) == (callres("(*connectStreamingUnmarshaler).Unmarshal", 1) == nil) && (err != nil ==> err == callres("(*connectStreamingUnmarshaler).Unmarshal", 1))   // label: the-unmarshaler's-verdict-is-returned
+//@   ensures (err == nil) == (callres("(*connectStreamingUnmarshaler).Unmarshal", 1) == nil)   // label: a-message-iff-the-unmarshaler-produced-one
+//@   ensures err != nil && !Is(callres("(*connectStreamingUnmarshaler).Unmarshal", 1), errSpecialEnvelope) ==> err == callres("(*connectStreamingUnmarshaler).Unmarshal", 1)   // label: the-unmarshaler's-error-is-returned
+//@   ensures err != nil && Is(err, io.EOF) && termerr(hc.unmarshaler.envelopeReader.reader) == io.EOF ==> |old(rest(hc.unmarshaler.envelopeReader.reader))| == 0   // label: the-handler-sees-a-clean-end-only-at-the-clean-end-of-the-request-body   // tags: C04, C07
+//@   ensures err != nil ==> coded(err)                                                                   // label: errors-are-coded
 //@   assert@call((*connectStreamingUnmarshaler).Unmarshal#1): arg1 == msg
 //@ func (*grpcHandlerConn).Receive(hc, msg) err
-//@   tags C01, C07
+//@   tags C01, C07, C04
 //@   requires hc != nil && hc.unmarshaler.envelopeReader.reader != nil && !pooled(hc.unmarshaler.envelopeReader.reader) && termerr(hc.unmarshaler.envelopeReader.reader) != errSpecialEnvelope && hc.unmarshaler.envelopeReader.bufferPool != nil && hc.unmarshaler.envelopeReader.codec != nil
 //@   assigns everything
-//@   ensures (err == nil) == (callres("(*grpcUnmarshaler).Unmarshal", 1) == nil) && (err != nil ==> err == callres("(*grpcUnmarshaler).Unmarshal", 1))   // label: the-unmarshaler's-verdict-is-returned
+//@   ensures (err == nil) == (callres("(*grpcUnmarshaler).Unmarshal", 1) == nil)   // label: a-message-iff-the-unmarshaler-produced-one
+//@   ensures err != nil && !Is(callres("(*grpcUnmarshaler).Unmarshal", 1), errSpecialEnvelope) ==> err == callres("(*grpcUnmarshaler).Unmarshal", 1)   // label: the-unmarshaler's-error-is-returned
+//@   ensures err != nil && Is(err, io.EOF) && termerr(hc.unmarshaler.envelopeReader.reader) == io.EOF ==> |old(rest(hc.unmarshaler.envelopeReader.reader))| == 0   // label: the-handler-sees-a-clean-end-only-at-the-clean-end-of-the-request-body   // tags: C04, C07
+//@   ensures err != nil ==> coded(err)                                                                   // label: errors-are-coded
 //@   assert@call((*grpcUnmarshaler).Unmarshal#1): arg1 == msg
 //@ func (*connectUnaryClientConn).Receive(cc, msg) err
 //@   tags C01, C06
@@ -2595,6 +2635,7 @@ package connect
 //@   ensures err == nil ==> res != nil
 //@ func NewClient(httpClient, url, options) res
 //@   tags C09, C08, C05, C12
+//@   use wrapAll_nonnil
 //@   assigns everything
 //@   ensures res != nil && fresh(res)
 //@   ensures callres("newClientConfig", 1, 1) != nil ==> res.err == callres("newClientConfig", 1, 1)   // label: a-bad-configuration-is-reported-by-every-call
@@ -2796,10 +2837,10 @@ package connect
 //@   ensures fresh(res) && typeis(res, "*codecOption") && typeis(cast(res, "*codecOption").Codec, "*protoJSONCodec")   // label: selects-the-JSON-codec
 //@ func WithCompression(name, newDecompressor, newCompressor) res
 //@   tags C08
-//@   ensures fresh(res) && typeis(res, "*compressionOption") && cast(res, "*compressionOption").Name == name && cast(res, "*compressionOption").CompressionPool != nil   // label: registers-under-the-given-name
+//@   ensures fresh(res) && typeis(res, "*compressionOption") && cast(res, "*compressionOption").Name == name && (cast(res, "*compressionOption").CompressionPool == nil <==> (newDecompressor == nil || newCompressor == nil))   // label: registers-under-the-given-name-unless-a-constructor-is-missing
 //@ func WithAcceptCompression(name, newDecompressor, newCompressor) res
 //@   tags C08
-//@   ensures fresh(res) && typeis(res, "*compressionOption") && cast(res, "*compressionOption").Name == name && cast(res, "*compressionOption").CompressionPool != nil   // label: registers-under-the-given-name
+//@   ensures fresh(res) && typeis(res, "*compressionOption") && cast(res, "*compressionOption").Name == name && (cast(res, "*compressionOption").CompressionPool == nil <==> (newDecompressor == nil || newCompressor == nil))   // label: registers-under-the-given-name-unless-a-constructor-is-missing
 //@ func newBufferPool() res
 //@   tags C01
 //@   ensures fresh(res)
@@ -2815,11 +2856,14 @@ package connect
 //@     invariant forall x seq :: {iterated(x)} iterated(x) ==> mapdom(m.nameToCodec, x)
 
 // recover.go: the outer functions only build the closures contracted above
+//@ typeinv *recoverHandlerInterceptor r by WithRecover: r.handle != nil
 //@ func (*recoverHandlerInterceptor).WrapUnary(i, next) res
 //@   tags C19
+//@   requires i != nil && next != nil
 //@   assigns nothing
 //@   ensures res != nil   // label: returns-a-function
 //@ func (*recoverHandlerInterceptor).WrapStreamingHandler(i, next) res
 //@   tags C19
+//@   requires i != nil && next != nil
 //@   assigns nothing
 //@   ensures res != nil   // label: returns-a-function
